@@ -58,11 +58,15 @@ class RfError(Exception):
   """The failure a scripted ReturnFunction reports through task.re + EXCEPTION."""
 
 
+class OpError(Exception):
+  """Raised by the execute() of the harness's failing blocking operation (`badop`)."""
+
+
 class TimerError(Exception):
   """Raised by a timer callback whose scripted return is "raise"."""
 
 
-PROGRAM_EXC = (TaskError, SubError, HBase, RfError, TimerError)
+PROGRAM_EXC = (TaskError, SubError, HBase, RfError, TimerError, OpError)
 
 
 class VPinger(object):
@@ -532,12 +536,26 @@ class Run(object):
       else:
         eff = {"op": "y0", "was": "release"}
         yv = 0
+    elif k == "badop" and "/" not in tid:
+      # a blocking operation whose execute() raises: the scheduler reports and de-schedules the task.
+      # how="release-unheld": recoco's own Lock.release() on a lock nobody holds (RuntimeError in _do_release)
+      l = op.get("lock", 0) % len(self.locks)
+      if op.get("how") == "release-unheld" and not self.locks[l]._locked:
+        eff = {"op": "badop", "how": "release-unheld", "lock": l}
+        yv = self.locks[l].release()
+      else:
+        eff = {"op": "badop", "how": "raise"}
+
+        class Failing(R.BlockingOperation):
+          def execute(op_self, task, scheduler):
+            raise OpError("badop:%s/%d" % (tid, pc))
+        yv = Failing()
     elif k == "rfop":
       script = []
       for o in list(op.get("script") or [{"v": "token"}]):
         script.append(o)
-        if o != "abort":
-          break                                   # the first non-abort entry completes the operation
+        if o not in ("abort", "chain"):
+          break                                   # the first entry that is not abort/chain completes the operation
       eff["script"] = script
       delay = op.get("delay") or 0
       yv = self._scripted_op(tid, pc, script, delay)
@@ -567,6 +585,7 @@ class Run(object):
     class Scripted(R.BlockingOperation):
       def __init__(op_self):
         op_self.k = 0
+        op_self.phase = 0          # which return function is the installed one ("chain" installs the next)
 
       def _slice(op_self, task):
         if delay:
@@ -577,16 +596,28 @@ class Run(object):
 
       def execute(op_self, task, scheduler):
         op_self.sched = scheduler
-        task.rf = op_self._rf
+        task.rf = op_self._make_rf(0)
         op_self._slice(task)
 
-      def _rf(op_self, task):
+      def _make_rf(op_self, phase):
+        def rf(task):
+          return op_self._rf(task, phase)
+        return rf
+
+      def _rf(op_self, task, phase):
         k = op_self.k
         op_self.k = k + 1
+        if phase != op_self.phase:
+          # a return function that had been replaced (by "chain") was called again
+          rt.emit(("rf", tid, pc, k, rt.clock.now, "stale-phase"))     # (the script goes on, so the run still ends)
         o = script[k] if k < len(script) else {"v": None}
         last = k >= len(script) - 1
-        if o == "abort" and not last:
-          rt.emit(("rf", tid, pc, k, rt.clock.now, "abort"))
+        if o in ("abort", "chain") and not last:
+          rt.emit(("rf", tid, pc, k, rt.clock.now, o))
+          if o == "chain":
+            # the documented way to chain phases: install a different ReturnFunction, then ABORT
+            op_self.phase += 1
+            task.rf = op_self._make_rf(op_self.phase)
           op_self._slice(task)
           return R.ABORT
         if o == "exc":
